@@ -22,7 +22,9 @@
 (*    meta]                                                                *)
 (* st (threaded through evaluation, in evaluation order):                  *)
 (*   [vars, stopped, skip, advance, valid, matchCount, curMatch, scanCount,*)
-(*    printed, frozen, memo, cur, line, headers, limit, appended]          *)
+(*    printed, frozen, memo, cur, line, headers, limit, appended, sig,     *)
+(*    errors (lines of the collected error records), errPrinted (number of *)
+(*    lines on which error messages went to the printers), pending, raised]*)
 (*   memo[i] \in {"n","t","f"}: the per-line vote memo of Matcher.expressions *)
 (*                                                                         *)
 (* Ev returns [val, vote, st]: what to_value() and matches() of the node   *)
@@ -30,7 +32,7 @@
 (*                                                                         *)
 (* Dev: set of named deviations (known findings). {} = documented meaning. *)
 (***************************************************************************)
-EXTENDS Values, Assign, Print, TLC
+EXTENDS Values, Assign, Print, ErrorPolicy, TLC
 
 CONSTANT Dev
 
@@ -439,6 +441,13 @@ Ev(node, st, ctx) ==
                       ELSE SetTracked(la.st.vars, var.name, var.track, y)
          IN R(VBool(d.vote), d.vote, [la.st EXCEPT !.vars = vars2])
     [] node.k = "fn" -> EvFn(node, st, ctx)
+    \* an error-provoking component (rendered add(#c, 1)): a numeric function over a cell that need not be a number. On a
+    \* numeric or absent cell it is add(); otherwise its argument validation fails: the component votes negative, nothing else
+    \* happens now, and one error is pending until the line has been evaluated (Matcher.clear_errors, see Flush)
+    [] node.k = "err" ->
+         LET v == HdrRaw(node.args[1], st)
+         IN IF IsNone(v) \/ NumLike(v) THEN R(VFloat(NumOf(v) + 1), ctx.AND, st)
+            ELSE R(None, FALSE, [st EXCEPT !.pending = @ + 1])
     [] OTHER -> R(None, TRUE, st)
 
 \* ---- Matcher.matches: fold the component votes left to right --------------------------------------
@@ -469,6 +478,15 @@ DoLasts(i, st, ctx) ==
     THEN DoLasts(i + 1, Ev(ctx.comps[i], [st EXCEPT !.cur = i], ctx).st, ctx)
     ELSE DoLasts(i + 1, st, ctx)
 
+\* Matcher.clear_errors: when the line has been evaluated (on every way out of Matcher.matches) the pending errors are handed to
+\* the error handler in component order, under the effective policy (ErrorPolicy!HandleN: stop, collect, fail, print, raise)
+Flush(res, ctx) ==
+  IF res.st.pending = 0 THEN res
+  ELSE LET h0 == [stopped |-> res.st.stopped, errors |-> res.st.errors, valid |-> res.st.valid, printed |-> <<>>, raised |-> FALSE]
+           h == HandleN(ctx.policy, ctx.vm, h0, ctx.k, res.st.pending)
+       IN [res EXCEPT !.st = [res.st EXCEPT !.stopped = h.stopped, !.errors = h.errors, !.valid = h.valid, !.raised = h.raised,
+                                            !.errPrinted = @ + (IF h.printed # <<>> THEN 1 ELSE 0), !.pending = 0]]
+
 MatchLine(st, ctx) ==
-  Fold(1, ~ctx.AND, [st EXCEPT !.memo = [j \in 1..Len(ctx.comps) |-> "n"], !.cur = 0], ctx)
+  Flush(Fold(1, ~ctx.AND, [st EXCEPT !.memo = [j \in 1..Len(ctx.comps) |-> "n"], !.cur = 0], ctx), ctx)
 =============================================================================
